@@ -12,7 +12,10 @@ as the original league.
 Generic over the scalar type `[Scalar α]` — no real numbers, so every equality below holds
 bit-for-bit for the `Float` instance the driver runs.  No hypothesis on the comparator `le`,
 on `neg`, on the parameters or on the ids chosen for the rebuilt objects (they need not be
-injective, and may change from game to game).
+injective, and may change from game to game).  The gamma callback must not read the `id` fields of the
+players it is handed (`GammaIdInv P.gamma`; `gam_tagged_idInv` for every tagged member,
+`gam_teamSigma_idInv` for the team-reading callback, `gam_fn_idInv_of_values` for any callback that
+reads the players through their (mu, sigma)).
 -/
 namespace OS
 open Scalar
@@ -32,11 +35,11 @@ theorem C20_playGame_of_values_ids (L : Leaves α) (P : Params α) (le : ρ → 
 
 /-- **Rebuilt objects get identical numbers from `rate`**: rating the loaded teams under any
     other ids `ι (player)` returns the same (mu, sigma) in every slot. -/
-theorem C20_rate_load_reid (ι : Nat → Nat) (L : Leaves α) (P : Params α) (le : ρ → ρ → Bool)
+theorem C20_rate_load_reid (ι : Nat → Nat) (L : Leaves α) (P : Params α) (hg : GammaIdInv P.gamma) (le : ρ → ρ → Bool)
     (neg : ρ → ρ) (s : Store α) (g : LeagueGame α ρ) :
     valuesOf (rate g.kind L P le neg (reid ι (loadTeams s g)) g.outcome g.opts)
       = valuesOf (rate g.kind L P le neg (loadTeams s g) g.outcome g.opts) :=
-  C20_rate_values ι g.kind L P le neg (loadTeams s g) g.outcome g.opts
+  C20_rate_values ι g.kind L P hg le neg (loadTeams s g) g.outcome g.opts
 
 /-- **Writing back by position is writing back by id** when the game is rated on the loaded
     objects and the outcome has one entry per team (the ids of the result are the loaded ids, C02).
@@ -49,24 +52,24 @@ theorem C20_playGamePos_eq_playGame (L : Leaves α) (P : Params α) (le : ρ →
 /-- **A game rated on any objects with the stored numbers** (same nesting; ids arbitrary, shared
     or not) and written back by position gives the store of the game rated on the loaded objects.
     No hypothesis on the game. -/
-theorem C20_playGamePos_rebuilt (L : Leaves α) (P : Params α) (le : ρ → ρ → Bool) (neg : ρ → ρ)
+theorem C20_playGamePos_rebuilt (L : Leaves α) (P : Params α) (hg : GammaIdInv P.gamma) (le : ρ → ρ → Bool) (neg : ρ → ρ)
     (s : Store α) (g : LeagueGame α ρ) (ts' : List (List (Rating α)))
     (hv : valuesOf ts' = valuesOf (loadTeams s g)) :
     playGamePos L P le neg s g ts' = playGamePos L P le neg s g (loadTeams s g) :=
-  playGamePos_congr L P le neg s g ts' (loadTeams s g) hv
+  playGamePos_congr L P hg le neg s g ts' (loadTeams s g) hv
 
 /-- the same with the rebuilt copies `reid ι` of the loaded objects -/
-theorem C20_playGamePos_reid (ι : Nat → Nat) (L : Leaves α) (P : Params α) (le : ρ → ρ → Bool)
+theorem C20_playGamePos_reid (ι : Nat → Nat) (L : Leaves α) (P : Params α) (hg : GammaIdInv P.gamma) (le : ρ → ρ → Bool)
     (neg : ρ → ρ) (s : Store α) (g : LeagueGame α ρ) :
     playGamePos L P le neg s g (reid ι (loadTeams s g))
       = playGamePos L P le neg s g (loadTeams s g) :=
-  C20_playGamePos_rebuilt L P le neg s g _ (valuesOf_reid ι _)
+  C20_playGamePos_rebuilt L P hg le neg s g _ (valuesOf_reid ι _)
 
 /-- one game on rebuilt copies, written back by position, is `playGame` -/
-theorem C20_playGame_rebuild (ι : Nat → Nat) (L : Leaves α) (P : Params α) (le : ρ → ρ → Bool)
+theorem C20_playGame_rebuild (ι : Nat → Nat) (L : Leaves α) (P : Params α) (hg : GammaIdInv P.gamma) (le : ρ → ρ → Bool)
     (neg : ρ → ρ) (s : Store α) (g : LeagueGame α ρ) (hf : g.outcome.fits g.teams.length) :
     playGamePos L P le neg s g (reid ι (loadTeams s g)) = playGame L P le neg s g := by
-  rw [C20_playGamePos_reid, C20_playGamePos_eq_playGame L P le neg s g hf]
+  rw [C20_playGamePos_reid ι L P hg, C20_playGamePos_eq_playGame L P le neg s g hf]
 
 /-! ### a history -/
 
@@ -75,7 +78,7 @@ theorem C20_playGame_rebuild (ι : Nat → Nat) (L : Leaves α) (P : Params α) 
     nesting of `g` — and written back by position.  If every outcome has one entry per team, the
     final store is the one of the original league.  (Apply it to `gs.take k` for the store after
     `k` games.) -/
-theorem C20_league_rebuild_general (L : Leaves α) (P : Params α) (le : ρ → ρ → Bool) (neg : ρ → ρ)
+theorem C20_league_rebuild_general (L : Leaves α) (P : Params α) (hg : GammaIdInv P.gamma) (le : ρ → ρ → Bool) (neg : ρ → ρ)
     (build : Nat → Store α → LeagueGame α ρ → List (List (Rating α)))
     (s : Store α) (gs : List (LeagueGame α ρ))
     (hb : ∀ k (hk : k < gs.length) (s' : Store α),
@@ -85,7 +88,7 @@ theorem C20_league_rebuild_general (L : Leaves α) (P : Params α) (le : ρ → 
   unfold playLeagueWith playLeague
   apply lg_foldl_zipIdx (fun k s g => playGamePos L P le neg s g (build k s g))
   intro i hi s'
-  rw [Nat.zero_add, C20_playGamePos_rebuilt L P le neg s' gs[i] _ (hb i hi s'),
+  rw [Nat.zero_add, C20_playGamePos_rebuilt L P hg le neg s' gs[i] _ (hb i hi s'),
     C20_playGamePos_eq_playGame L P le neg s' gs[i] (hf _ (List.getElem_mem hi))]
 
 /-- **Rebuilding the players before every game changes nothing.**  For every history of
@@ -94,30 +97,30 @@ theorem C20_league_rebuild_general (L : Leaves α) (P : Params α) (le : ρ → 
     rebuilt copies `reid (ι k) (loadTeams s g)` of the stored ratings, written back by position,
     ends in the same store — the same (mu, sigma) for every player, as elements of `α` — as the
     original league.  (Only the "one outcome entry per team" half of well-formedness is used.) -/
-theorem C20_league_rebuild (L : Leaves α) (P : Params α) (le : ρ → ρ → Bool) (neg : ρ → ρ)
+theorem C20_league_rebuild (L : Leaves α) (P : Params α) (hg : GammaIdInv P.gamma) (le : ρ → ρ → Bool) (neg : ρ → ρ)
     (ι : Nat → Nat → Nat) (s : Store α) (gs : List (LeagueGame α ρ)) (hwf : ∀ g ∈ gs, g.WF) :
     playLeagueWith L P le neg (fun k s g => reid (ι k) (loadTeams s g)) s gs
       = playLeague L P le neg s gs :=
-  C20_league_rebuild_general L P le neg _ s gs (fun k _ _ => valuesOf_reid (ι k) _)
+  C20_league_rebuild_general L P hg le neg _ s gs (fun k _ _ => valuesOf_reid (ι k) _)
     (fun g hg => (hwf g hg).2)
 
 /-- the same after every prefix of the history -/
-theorem C20_league_rebuild_prefix (L : Leaves α) (P : Params α) (le : ρ → ρ → Bool) (neg : ρ → ρ)
+theorem C20_league_rebuild_prefix (L : Leaves α) (P : Params α) (hg : GammaIdInv P.gamma) (le : ρ → ρ → Bool) (neg : ρ → ρ)
     (ι : Nat → Nat → Nat) (s : Store α) (gs : List (LeagueGame α ρ)) (hwf : ∀ g ∈ gs, g.WF) (k : Nat) :
     playLeagueWith L P le neg (fun k s g => reid (ι k) (loadTeams s g)) s (gs.take k)
       = playLeague L P le neg s (gs.take k) :=
-  C20_league_rebuild L P le neg ι s (gs.take k) (fun g hg => hwf g (List.mem_of_mem_take hg))
+  C20_league_rebuild L P hg le neg ι s (gs.take k) (fun g hg => hwf g (List.mem_of_mem_take hg))
 
 /-- **Fresh ids slot by slot** (not even a function of the player): game number `k` is rated on
     `setIds (fresh k) (loadTeams s g)`, `fresh k` any nested list of ids in the nesting of the
     game. -/
-theorem C20_league_rebuild_fresh (L : Leaves α) (P : Params α) (le : ρ → ρ → Bool) (neg : ρ → ρ)
+theorem C20_league_rebuild_fresh (L : Leaves α) (P : Params α) (hg : GammaIdInv P.gamma) (le : ρ → ρ → Bool) (neg : ρ → ρ)
     (fresh : Nat → List (List Nat)) (s : Store α) (gs : List (LeagueGame α ρ))
     (hsh : ∀ k (hk : k < gs.length), shapeOf (fresh k) = shapeOf gs[k].teams)
     (hf : ∀ g ∈ gs, g.outcome.fits g.teams.length) :
     playLeagueWith L P le neg (fun k s g => setIds (fresh k) (loadTeams s g)) s gs
       = playLeague L P le neg s gs := by
-  apply C20_league_rebuild_general L P le neg _ s gs _ hf
+  apply C20_league_rebuild_general L P hg le neg _ s gs _ hf
   intro k hk s'
   apply setIds_values
   rw [hsh k hk, ← lg_idsOf_loadTeams s' gs[k], shapeOf_idsOf]
@@ -142,14 +145,14 @@ example : ¬ (⟨.BTF, [[0, 1], [0]], .omitted, ⟨none, none⟩⟩ : LeagueGame
 example : ¬ (⟨.BTF, [[0, 1], [2]], .ranks [1], ⟨none, none⟩⟩ : LeagueGame Float Nat).WF := by decide
 
 /-- `C20_league_rebuild` instantiated: that history, ids shifted by `100·(k+1)` before game `k` -/
-example (L : Leaves α) (P : Params α) (s : Store α) (t : α) :
+example (L : Leaves α) (P : Params α) (hg : GammaIdInv P.gamma) (s : Store α) (t : α) :
     playLeagueWith L P leNat id (fun k s g => reid (fun p => p + 100 * (k + 1)) (loadTeams s g)) s
         [⟨.PL, [[0, 1], [2]], .ranks [1, 2], ⟨none, none⟩⟩,
          ⟨.TMF, [[2], [0], [1]], .scores [3, 1, 2], ⟨some t, some true⟩⟩]
       = playLeague L P leNat id s
         [⟨.PL, [[0, 1], [2]], .ranks [1, 2], ⟨none, none⟩⟩,
          ⟨.TMF, [[2], [0], [1]], .scores [3, 1, 2], ⟨some t, some true⟩⟩] := by
-  apply C20_league_rebuild L P leNat id (fun k p => p + 100 * (k + 1))
+  apply C20_league_rebuild L P hg leNat id (fun k p => p + 100 * (k + 1))
   intro g hg
   simp only [List.mem_cons, List.not_mem_nil, or_false] at hg
   rcases hg with rfl | rfl <;> exact ⟨by dsimp only; decide, by dsimp only; decide⟩
